@@ -15,8 +15,10 @@ import (
 	"fmt"
 	"regexp"
 	"strings"
+	"sync/atomic"
 	"testing"
 
+	"github.com/cloudwego/eino/callbacks"
 	"github.com/cloudwego/eino/compose"
 	"github.com/cloudwego/eino/internal/gkit"
 	"github.com/cloudwego/eino/internal/vkit"
@@ -27,6 +29,9 @@ type CaseC13 struct {
 	Spec     *gkit.Spec `json:"spec"`
 	Input    any        `json:"input"`
 	Paradigm string     `json:"paradigm"` // invoke | stream | collect | transform
+	// Logging: the call carries a callback handler that formats every error it is shown (err.Error()), as a
+	// logging handler does - at every nesting level, before the enclosing levels have added their part
+	Logging bool `json:"logging,omitempty"`
 }
 
 func allLambdas(sp *gkit.Spec, path string, inChain bool, f func(n *gkit.NodeSpec, tag string, nameable bool)) {
@@ -58,6 +63,7 @@ func genC13(t *rapid.T) CaseC13 {
 	c := CaseC13{Spec: gkit.GenTop(t, mode, cfg)}
 	c.Input = gkit.GenInput(t, c.Spec.In)
 	c.Paradigm = []string{"invoke", "invoke", "stream", "collect", "transform"}[rapid.IntRange(0, 4).Draw(t, "paradigm")]
+	c.Logging = rapid.IntRange(0, 2).Draw(t, "logging") == 0
 	var ls []*gkit.NodeSpec
 	allLambdas(c.Spec, "", false, func(n *gkit.NodeSpec, tag string, nameable bool) { ls = append(ls, n) })
 	if len(ls) == 0 {
@@ -159,19 +165,28 @@ func checkC13(c CaseC13) (*vkit.Failure, vkit.Meta) {
 		var out any
 		var rerr error
 		chunks := gkit.ChunkInput(in, 2)
+		var copts []compose.Option
+		if c.Logging {
+			m.Labels = append(m.Labels, "logging-error-callback")
+			var logged int64
+			copts = append(copts, compose.WithCallbacks(callbacks.NewHandlerBuilder().OnErrorFn(func(ctx context.Context, info *callbacks.RunInfo, err error) context.Context {
+				atomic.AddInt64(&logged, int64(len(err.Error())))
+				return ctx
+			}).Build()))
+		}
 		switch c.Paradigm {
 		case "invoke":
-			out, rerr = r.Invoke(cctx, in)
+			out, rerr = r.Invoke(cctx, in, copts...)
 		case "stream":
-			sr, e := r.Stream(cctx, in)
+			sr, e := r.Stream(cctx, in, copts...)
 			rerr = e
 			if e == nil {
 				out, _, rerr = gkit.DrainAny(sr)
 			}
 		case "collect":
-			out, rerr = r.Collect(cctx, chunks)
+			out, rerr = r.Collect(cctx, chunks, copts...)
 		case "transform":
-			sr, e := r.Transform(cctx, chunks)
+			sr, e := r.Transform(cctx, chunks, copts...)
 			rerr = e
 			if e == nil {
 				out, _, rerr = gkit.DrainAny(sr)
